@@ -26,7 +26,8 @@
 (*  - Send to the initiator fails once its cancel arrived; Send to the       *)
 (*    source fails once the outgoing context is done / conn closed, and may  *)
 (*    fail or be silently lost once the source handler has returned          *)
-(*  - the source's Recv ends with the half-close, or with the cancel which   *)
+(*  - the source's Recv ends with the half-close (the handler of a "silent"  *)
+(*    source carries on regardless), or with the cancel which               *)
 (*    may overtake acks that the proxy has queued (tail loss at an end)      *)
 (*  - the handler's return delivers EOF (nil) / a status to the initiator    *)
 (*    behind the messages already sent                                       *)
@@ -37,7 +38,8 @@ CONSTANTS RaceHandoff,      \* TRUE: a listener's hand-off may still win its sel
           LatchMsg,         \* the code: TRUE. forwardReplicationMessages' deferred Shutdown()
           LatchAck,         \* the code: TRUE. forwardAcks' deferred Shutdown()
           CloseSendOnExit,  \* the code: TRUE. forwardAcks' deferred CloseSend()
-          CancelOnReturn    \* the code: TRUE. Run's deferred cancel()
+          CancelOnReturn,   \* the code: TRUE. Run's deferred cancel()
+          FmsgWakesOnLatch  \* the code: TRUE. forwardReplicationMessages selects on the latch as well as on the data channel
 
 EOF == 0      \* end markers in the queues; messages are 1, 2, ...
 ERR == -1
@@ -124,7 +126,7 @@ EnvStep ==
 SrcRecv ==
   /\ srcSt = "open" /\ ~srcSawEnd
   /\ \/ /\ p2s # <<>> /\ Head(p2s) > 0 /\ srcIn' = Append(srcIn, Head(p2s)) /\ p2s' = Tail(p2s) /\ UNCHANGED srcSawEnd
-     \/ /\ p2s # <<>> /\ Head(p2s) = HC /\ srcSawEnd' = TRUE /\ UNCHANGED <<srcIn, p2s>>
+     \/ /\ p2s # <<>> /\ Head(p2s) = HC /\ script.src = "coop" /\ srcSawEnd' = TRUE /\ UNCHANGED <<srcIn, p2s>>   \* a silent source ignores it
      \/ /\ (SrcCtxDone \/ connClosed) /\ srcSawEnd' = TRUE /\ UNCHANGED <<srcIn, p2s>>     \* cancel may overtake queued acks
   /\ UNCHANGED <<script, epc, ended, srcSt, iniSt, iniSawEnd, iniCancelSeen, connClosed, s2p, p2i, i2p, srcOut, iniIn, iniOut, prx>>
 \* a source that saw the end of its Recv loop returns (Temporal's stream sender does; so does the harness' fake)
@@ -184,6 +186,7 @@ FmsgStart ==    \* dataChan := startListener(f.sourceStreamClient, f.shutdownCha
   /\ UNCHANGED <<env, net, hist, run, latch, lsv, ltgt, ltv, fmv, fack, fav, nT, nS>>
 FmsgShutdown == \* select { case <-shutdownChan.Channel(): return }; a receive from the closed data channel ends the same way
   /\ fmsg = "select" /\ latch /\ fmsg' = "ret"
+  /\ (FmsgWakesOnLatch \/ lsrc = "done")       \* without the latch case only the closed data channel (listener gone) ends it
   /\ UNCHANGED <<env, net, hist, run, latch, lsrc, lsv, ltgt, ltv, fmv, fack, fav, nT, nS>>
 FmsgGot ==      \* err == io.EOF / err != nil / unknown attributes: return;   Messages: Send
   /\ fmsg = "got" /\ fmsg' = (IF fmv > 0 /\ ~UnkMsg(fmv) THEN "send" ELSE "ret")
